@@ -23,4 +23,4 @@ MANIFEST = dict(
 
 def run(ctx):
     ledger_common.run(ctx, "C05", exhaustive=dict(quick="c05_quick", thorough="c05_thorough"),
-                      negatives=[("c05_neg", ["Conservation"])], sim="c05_sim", sim_quick=100, sim_thorough=3000, depth=9)
+                      negatives=[("c05_neg", ["Conservation"])], sim="c05_sim", sim_quick=150, sim_thorough=3000, depth=9)
